@@ -117,6 +117,24 @@ var l2CorpusPG = []corpusStmt{
 	{":many", "SELECT id FROM authors WHERE id = $1 AND id <> $1 LIMIT $3", nil, nil, nil},
 	{":many", "SELECT id FROM authors WHERE name = $1 AND bio = $2 AND age = $2 AND id = $4", nil, nil, nil},
 	{":exec", "INSERT INTO authors (id, name, tags) VALUES ($1, $1, $3)", nil, nil, nil},
+	// set-returning functions as from-items (one column, named after the alias)
+	{":many", "SELECT a.id, g.* FROM authors a, generate_series(1, 3) g", nil, nil, nil},
+	{":many", "SELECT a.*, g.* FROM authors a, generate_series(1, 3) g", nil, nil, nil},
+	{":many", "SELECT a.id, g FROM authors a, generate_series(1, 3) g", nil, nil, nil},
+	{":many", "SELECT a.id, t.* FROM authors a, unnest(a.tags) t", nil, nil, nil},
+	{":many", "SELECT * FROM generate_series(1, $1) g", nil, nil, nil},
+	{":many", "SELECT a.id FROM authors a WHERE EXISTS (SELECT * FROM unnest(a.tags) u WHERE u = $1)", nil, nil, nil},
+	// coalesce over a nullable column, the plain column later in the same list (and through a CTE)
+	{":many", "SELECT id, coalesce(bio, 'n/a') AS bio_text, bio FROM authors", nil, nil, nil},
+	{":many", "SELECT coalesce(age, 0) AS age_or_zero, id, age, bio, coalesce(bio, '') AS b FROM authors", nil, nil, nil},
+	{":many", "WITH w AS (SELECT id, bio FROM authors) SELECT coalesce(bio, 'x') AS b, bio, id FROM w", nil, nil, nil},
+	{":one", "UPDATE authors SET name = $1 WHERE id = $2 RETURNING coalesce(bio, '') AS b, bio, age", nil, nil, nil},
+	// data-modifying statements without RETURNING whose nested result lists hold stars
+	{":exec", "INSERT INTO archive.venues SELECT id, tags, bio FROM authors", nil, nil, nil},
+	{":exec", "INSERT INTO authors SELECT * FROM authors WHERE id = $1", nil, nil, nil},
+	{":exec", "INSERT INTO authors SELECT a.* FROM authors a JOIN books b ON b.author_id = a.id WHERE b.id = $1", nil, nil, nil},
+	{":exec", "DELETE FROM authors WHERE EXISTS (SELECT * FROM books b WHERE b.author_id = authors.id AND b.title = $1)", nil, nil, nil},
+	{":execrows", "UPDATE authors SET bio = $1 WHERE id IN (SELECT b.author_id FROM (SELECT * FROM books) b)", nil, nil, nil},
 }
 
 var l2CorpusMy = []corpusStmt{
@@ -145,6 +163,9 @@ var l2CorpusMy = []corpusStmt{
 	{":exec", "UPDATE authors SET title = ? WHERE id IN (SELECT author_id FROM books)", nil, nil, nil},
 	{":many", "SELECT a.id FROM authors a JOIN books b ON b.author_id = a.id WHERE a.title = ?", nil, nil, nil},
 	{":many", "SELECT a.id FROM authors a JOIN books b ON b.author_id = a.id WHERE b.title = ? AND a.name = ?", nil, nil, nil},
+	{":many", "SELECT id, coalesce(bio, 'n/a') AS bio_text, bio FROM authors", nil, nil, nil},
+	{":exec", "INSERT INTO authors SELECT * FROM authors WHERE id = ?", nil, nil, nil},
+	{":exec", "DELETE FROM authors WHERE EXISTS (SELECT * FROM books b WHERE b.author_id = authors.id AND b.title = ?)", nil, nil, nil},
 }
 
 func l2Corpus(emitCase func(id, engine, schema string, q QStmt, has, gone [][2]string)) {
